@@ -241,6 +241,17 @@ def scenario_for(seed, index, tier):
         # disconnect() in between)
         sc['second_via'] = rng.choice(['user', 'handler'])
     if not sc.get('second') and rng.random() < 0.1:
+        # another Connection object lives in the same process (encrypted
+        # like this one) and writes while this one does: the two streams
+        # must not influence each other
+        steps = [s_ for s_ in sc['server']['conns'][0]['login']
+                 if s_[0] == 'encrypt'] + [['success']]
+        sc['bystander'] = {'n': rng.choice([3, 10, 40]),
+                           'gap_us': rng.choice([0, 200, 5000]),
+                           'forced': rng.random() < 0.5}
+        sc['server']['conns'].append({'login': copy.deepcopy(steps),
+                                      'play': []})
+    elif not sc.get('second') and rng.random() < 0.1:
         # the user does not wait for anything: it writes its packets and
         # calls (a non-immediate) disconnect() straight away - everything it
         # wrote still has to arrive, whole and in order
@@ -265,6 +276,13 @@ def scenario_for(seed, index, tier):
         sc['variant'] = 'three-cuts'
     else:
         sc['variant'] = 'whole-frames'
+    if sc.get('bystander') and (sc['net'].get('cut_plan') or
+                                sc['net'].get('one_byte_reads')):
+        # (not next to minute-long stalls or one-byte reads of this
+        # session: the second networking thread's polling would eat the
+        # step budget)
+        sc.pop('bystander')
+        sc['server']['conns'].pop()
     return sc
 
 
@@ -382,6 +400,46 @@ def _execute(scenario, tape, want_world=False):
                 rec = (p.id, name, ())
             c['log'].append(rec)
         conn.register_packet_listener(on_packet, Packet, early=True)
+        by = scenario.get('bystander')
+        if by:
+            st['b_errs'] = []
+            conn2 = Connection('sim.example', 25565, username='bystander',
+                               allowed_versions=[scenario['proto']],
+                               handle_exception=lambda e, i: (
+                                   [] if st.get('b_closing') else
+                                   st['b_errs']).append(e))
+            conn2.register_packet_listener(
+                lambda p: st.__setitem__('b_in_play', True)
+                if p.packet_name == 'login success' else None, Packet)
+
+            def bystander():
+                w.wait_until(lambda: S[0]['in_play'] or S[0]['errs'],
+                             30000000)
+                r = w.api('b-connect', conn2.connect)
+                if not r.ok:
+                    st['b_errs'].append(r.exc)
+                    return
+                w.wait_until(lambda: st.get('b_in_play') or st['b_errs'],
+                             30000000)
+                for i in range(by['n']):
+                    if st['b_errs']:
+                        break
+                    w.api('b-write', conn2.write_packet,
+                          serverbound.play.PluginMessagePacket(
+                              channel='by:%d' % i,
+                              data=bytes((i * 7 + j) & 0xFF
+                                         for j in range(i % 23))),
+                          force=by['forced'])
+                    if by['gap_us']:
+                        w.sleep(by['gap_us'])
+                w.wait_until(lambda: S[0].get('disc_started') or
+                             S[0]['errs'], 60000000)
+                w.wait_until(lambda: len(w.server.apps) > 1 and
+                             w.server.apps[1].play_frames >= by['n'],
+                             budget=20000)
+                st['b_closing'] = True
+                w.api('b-disconnect', conn2.disconnect)
+            w.sim.spawn(bystander, 'user1')
 
         def on_outgoing(p):
             c = cur()
@@ -465,6 +523,7 @@ def _execute(scenario, tape, want_world=False):
 
     w.run(build)
     res = common.result_from_world(w)
+    w.harness_state = st
     for k, c in enumerate(S):
         if k < len(w.server.apps) or k == 0:
             check(c['sc'], w, c, res, c['exp_in'], c['exp_out'], ids, k,
@@ -613,6 +672,29 @@ def check(scenario, w, st, res, exp_in, exp_out, ids, k=0, top=None):
         # negative thresholds: pyCraft's writer treats only -1 as "never
         # compress"; the statement demands the round trip, not a particular
         # choice, so nothing is asserted about data_len here
+    by = top.get('bystander') if k == 0 else None
+    if by:
+        ob(3)
+        bst = w.harness_state
+        if bst.get('b_errs'):
+            V.append(('C01/bystander-error:%s'
+                      % type(bst['b_errs'][0]).__name__,
+                      str(bst['b_errs'][0])[:120]))
+        elif len(w.server.apps) < 2:
+            V.append(('C01/bystander-no-connection', None))
+        else:
+            app_b = w.server.apps[1]
+            want_b = [(ids['sb.play.plugin'], wire.string('by:%d' % i) +
+                       bytes((i * 7 + j) & 0xFF for j in range(i % 23)))
+                      for i in range(by['n'])]
+            got_b = [(pid, bytes(body)) for _s, stt, pid, body, _m in
+                     app_b.frames if stt in ('play', 'paused')]
+            if app_b.errors or got_b != want_b:
+                V.append(('C01/bystander-stream-corrupted',
+                          {'errors': app_b.errors[:2], 'n_got': len(got_b),
+                           'n_want': len(want_b)}))
+            else:
+                res.probes['second-connection-writing-meanwhile'] = 1
     ob()
     if not st.get('quiet'):
         V.append(('C01/networking-thread-alive', None))
